@@ -543,7 +543,12 @@ class SolverIR:
             for s2 in ast.walk(ast.Module(body=node.body, type_ignores=[])):
                 if isinstance(s2, ast.Call) and isinstance(s2.func, ast.Attribute) and isinstance(s2.func.value, ast.Name) \
                         and s2.func.value.id == 'self':
-                    maybe |= self_field_writes(self.model, frame['cls'], s2.func.attr)
+                    w = self_field_writes(self.model, frame['cls'], s2.func.attr)
+                    maybe |= w
+                    if s2.func.attr not in sx.opaque_calls:
+                        # the helper is evaluated in line with the body: what it writes is written by the body (a running total
+                        # updated through `self._accumulate(element)` is loop-carried like one updated in place)
+                        assigned_fields |= {f for f in w if ('self', f) in st.heap and isinstance(st.heap[('self', f)], (N, Q, Dyn))}
         for fld in maybe:
             if fld not in assigned_fields or ('self', fld) not in st.heap:
                 body_state.bump('self', fld)
